@@ -48,7 +48,8 @@ func checkColours(out string) string {
 	return ""
 }
 
-// shortenedOK: printed is orig, or (orig longer than width) a prefix + omission + suffix of orig within width runes.
+// shortenedOK: printed is orig, or (orig longer than width) a non-empty prefix of orig, some
+// omission mark, and a non-empty suffix of orig, within width runes. The mark itself is not prescribed.
 func shortenedOK(printed, orig string, width int) bool {
 	if printed == orig {
 		return utf8.RuneCountInString(orig) <= width
@@ -56,12 +57,16 @@ func shortenedOK(printed, orig string, width int) bool {
 	if utf8.RuneCountInString(printed) > width {
 		return false
 	}
-	i := strings.Index(printed, "…")
-	if i < 0 {
-		return false
+	pr, or := []rune(printed), []rune(orig)
+	i := 0
+	for i < len(pr) && i < len(or) && pr[i] == or[i] {
+		i++
 	}
-	p, s := printed[:i], printed[i+len("…"):]
-	return p != "" && s != "" && strings.HasPrefix(orig, p) && strings.HasSuffix(orig, s)
+	j := 0
+	for j < len(pr)-i && j < len(or) && pr[len(pr)-1-j] == or[len(or)-1-j] {
+		j++
+	}
+	return i >= 1 && j >= 1 && i+j < len(pr)+1 && i+j < len(or)
 }
 
 func splitDays(out string) [][]string {
